@@ -53,6 +53,7 @@ type GenOpts struct {
 	TypedefOnlyStructs     bool // typedefs only of struct-likes (for use_type_alias=false, which breaks typedef'd scalars)
 	MoreServices           bool // 2-3 services per file
 	ArgDefaults            bool // default values on function arguments
+	ThrowNamePool          bool // throws fields are named from a tiny pool, so that different exception types meet under one name (C07)
 	TypedefEnumSel         bool // enum values selected through a typedef (Typedef.VALUE): accepted by the analyser, rejected by the Go backend
 }
 
@@ -425,6 +426,17 @@ func (g *gen) genFields(f *File, d *Def, kind string, n int) []*Field {
 	prev := int32(0)
 	for i := 0; i < n; i++ {
 		fl := &Field{Name: g.localName(used, fieldWords, stressFieldWords, collideFieldWords)}
+		if kind == "throws" && g.o.ThrowNamePool {
+			for _, nm := range []string{"e", "err", "ex", "exc"} {
+				if !used[normName(nm)] && !used[nm] {
+					delete(used, normName(fl.Name))
+					delete(used, fl.Name)
+					fl.Name = nm
+					used[nm] = true
+					break
+				}
+			}
+		}
 		for kind == "throws" && normName(fl.Name) == "success" { // collides with the synthesized result field (known finding)
 			fl.Name = g.localName(used, fieldWords, stressFieldWords, nil)
 		}
